@@ -7,7 +7,7 @@ use crate::r#gen::trees::{TreeCfg, gen_tree};
 use crate::tape::Tape;
 use crate::util::err_kind;
 use clvmr::allocator::Allocator;
-use clvmr::serde::{node_to_bytes_backrefs_limit, node_to_bytes_limit};
+use clvmr::serde::{node_to_bytes, node_to_bytes_backrefs, node_to_bytes_backrefs_limit, node_to_bytes_limit};
 
 /// token boundaries of a (possibly back-referencing) serialization: offsets
 /// where a cons marker, a back-reference marker, a length prefix or an atom
@@ -57,7 +57,21 @@ pub fn test_tree(c: &TreeCase) -> Verdict {
                     node_to_bytes_limit(&a, node, limit)
                 }
             };
-            let full = ser(usize::MAX >> 2).map_err(|e| (format!("{name} unlimited: {e}"), None))?;
+            // the reference is the unlimited serializer itself, not the limited one with a large limit
+            // (node_to_bytes itself is the limited serializer with a 2,000,000-byte limit: for larger trees the
+            // independent classic encoder is the reference)
+            let full = if backrefs {
+                node_to_bytes_backrefs(&a, node).map_err(|e| (format!("unlimited serializer: {e}"), None))?
+            } else {
+                match node_to_bytes(&a, node) {
+                    Ok(b) => b,
+                    Err(_) => crate::model::refserde::encode_classic(&c.tree, usize::MAX >> 2).ok_or_else(|| ("reference encoder failed".to_string(), None))?,
+                }
+            };
+            let huge = ser(usize::MAX >> 2).map_err(|e| (format!("{name} with a huge limit: {e}"), None))?;
+            if huge != full {
+                return Err((format!("{name} with a huge limit returns {} bytes that differ from the unlimited serializer's {} bytes", huge.len(), full.len()), None));
+            }
             let len = full.len();
             let bounds = boundaries(&full);
             let mut limits: Vec<usize> = if len <= 300 {
